@@ -706,6 +706,7 @@ func runVdrSpec(spec *VdrSpec, scratch string) *VdrResult {
 			v.initView[f.Node] = f
 		}
 	}
+	v.buildChecks()
 	to := time.Duration(spec.TimeoutS) * time.Second
 	if to == 0 {
 		to = 40 * time.Second
